@@ -1,53 +1,47 @@
 #!/bin/sh
-# validate_seed.sh <dir with patch.diff and demo files> <property id> [tier]
-# 1. fresh scratch worktree: patch applies, builds, existing tests pass, demo fails with / passes without the patch
-# 2. apply to /repo, run the property's check, undo
-# Output: a short report on stdout.  Scratch worktree is removed.
+# validate_seed.sh <dir with patch.diff and demo *_test.go> <property id> [tier] [more vcheck args]
+# In a scratch worktree of /repo (never /repo itself):
+#  1. the patch applies and builds; the existing suite passes with it; the demo fails with it and passes without
+#  2. the property's check runs against the patched worktree (VCHECK_REPO) and its verdict is reported
+# The worktree and its build output are removed at the end.
 set -u
-D=$1; P=$2; TIER=${3:-quick}
+D=$(cd $1 && pwd); P=$2; TIER=${3:-quick}; shift; shift; [ $# -gt 0 ] && shift
 GO=/verif/tools/go
 WT=/tmp/vseed.$$
 git -C /repo worktree add --detach $WT HEAD -q || exit 2
-cleanup() { git -C /repo worktree remove --force $WT >/dev/null 2>&1; rm -rf $WT; }
+cleanup() { git -C /repo worktree remove --force $WT >/dev/null 2>&1; rm -rf $WT /tmp/vseed.*.$$; }
 trap cleanup EXIT
 cd $WT
 if ! git apply --check $D/patch.diff 2>/dev/null; then echo "RESULT patch-does-not-apply"; exit 0; fi
-# demo without the patch
 demo_files=$(ls $D | grep '_test.go$' || true)
 place() { for f in $demo_files; do
     pkg=$(grep -m1 '^package ' $D/$f | awk '{print $2}')
     case "$pkg" in
       originium|originium_test) dst=. ;;
-      *) dst=$(grep -rl --include=*.go "^package $pkg\$" . | grep -v _test.go | head -1 | xargs dirname) ;;
+      *) base=${pkg%_test}; dst=$(grep -rl --include=*.go "^package $base\$" . | grep -v _test.go | head -1 | xargs dirname) ;;
     esac
     cp $D/$f $dst/ ; echo "$dst" ; done | sort -u; }
+unplace() { for p in $1; do for f in $demo_files; do rm -f $p/$f; done; done; }
 pkgs=$(place)
-echo "demo packages: $pkgs"
 clean_rc=0
-for p in $pkgs; do timeout 600 $GO test -vet=off -count=1 -run 'Demo|demo|Zz|ZZ' $p >/tmp/vseed.clean.$$ 2>&1 || clean_rc=1; done
+for p in $pkgs; do timeout 900 $GO test -vet=off -count=1 $p >/tmp/vseed.clean.$$ 2>&1 || clean_rc=1; done
+unplace "$pkgs"
 git apply $D/patch.diff
-$GO build ./... >/tmp/vseed.build.$$ 2>&1 || { echo "RESULT does-not-build"; cat /tmp/vseed.build.$$ | tail -5; exit 0; }
-# existing suite with the patch (demo files moved away)
-for p in $pkgs; do for f in $demo_files; do rm -f $p/$f; done; done
+if ! $GO build ./... >/tmp/vseed.build.$$ 2>&1; then echo "RESULT does-not-build"; tail -5 /tmp/vseed.build.$$; exit 0; fi
 suite_rc=0
-timeout 900 $GO test -vet=off -count=1 ./... >/tmp/vseed.suite.$$ 2>&1 || suite_rc=1
-for f in $demo_files; do :; done; place >/dev/null
+timeout 900 $GO test -vet=off -count=1 ./... >/tmp/vseed.suite.$$ 2>&1 || { sleep 1; timeout 900 $GO test -vet=off -count=1 ./... >/tmp/vseed.suite.$$ 2>&1 || suite_rc=1; }
+place >/dev/null
 mut_rc=0
-for p in $pkgs; do timeout 600 $GO test -vet=off -count=1 -run 'Demo|demo|Zz|ZZ' $p >/tmp/vseed.mut.$$ 2>&1 || mut_rc=1; done
-echo "RESULT suite_with_patch_rc=$suite_rc demo_clean_rc=$clean_rc demo_patched_rc=$mut_rc"
-[ $suite_rc -ne 0 ] && tail -15 /tmp/vseed.suite.$$
-[ $clean_rc -ne 0 ] && tail -15 /tmp/vseed.clean.$$
-[ $mut_rc -eq 0 ] && tail -8 /tmp/vseed.mut.$$
-# 2. our check on /repo with the patch applied
-cd /verif
-git -C /repo apply $D/patch.diff || { echo "cannot apply to /repo"; exit 0; }
+for p in $pkgs; do timeout 900 $GO test -vet=off -count=1 $p >/tmp/vseed.mut.$$ 2>&1 || mut_rc=1; done
+unplace "$pkgs"
+echo "RESULT suite_with_patch_rc=$suite_rc demo_clean_rc=$clean_rc demo_patched_rc=$mut_rc   (want 0 0 1)"
+[ $suite_rc -ne 0 ] && grep -E "^(--- FAIL|FAIL|panic)" /tmp/vseed.suite.$$ | head -5
+[ $clean_rc -ne 0 ] && grep -E "^(--- FAIL|FAIL|panic)" /tmp/vseed.clean.$$ | head -5
+# 2. the check against the patched worktree
 s=$(date +%s)
-VERIF_SEED=1 timeout 3600 /verif/bin/vcheck -prop $P -tier $TIER > /tmp/vseed.check.$$ 2>&1
+VCHECK_REPO=$WT VCHECK_OUT=/tmp/vseed.out.$$ VERIF_SEED=1 timeout 5400 /verif/bin/vcheck -prop $P -tier $TIER "$@" > /tmp/vseed.check.$$ 2>&1
 rc=$?
 e=$(date +%s)
-git -C /repo checkout -- .
-git -C /repo status --short | grep -v '^??' 
 echo "CHECK property=$P tier=$TIER rc=$rc $((e-s))s"
-grep -E "^VIOLATION|^KNOWN|^unconfirmed|MISMATCH|INFRA|^OK" /tmp/vseed.check.$$ | head -12
-grep -A1 "^VIOLATION" /tmp/vseed.check.$$ | grep -v "^VIOLATION\|^--" | head -6
-rm -f /tmp/vseed.*.$$
+grep -E "^VIOLATION|^KNOWN|^unconfirmed|MISMATCH|INFRA|^OK|cannot load" /tmp/vseed.check.$$ | cut -c1-220 | head -8
+grep -A1 "^VIOLATION" /tmp/vseed.check.$$ | grep -v "^VIOLATION\|^--" | cut -c1-200 | head -5
